@@ -181,7 +181,7 @@ def expected_crl(up, crl_path):
 SNIS = [None, "", "example.com", "www.example.com", "a" * 63 + ".example", ".".join(["a" * 61] * 4) + ".abcde", "xn--bcher-kva.example",
         "bücher.example", "*.example.com", "*", "192.0.2.1", "::1", "2001:db8::1", "EXAMPLE.com", "foo_bar.example", "example.com.",
         "1.2.3", "-a.com", "a" * 62, "a" * 59 + ".com", "a" * 60 + ".com", "a" * 64 + ".com", "a..b", "::ffff:192.0.2.7", "localhost"]
-LOCALS = ["127.0.0.1", "::1", "192.168.1.5", "::ffff:127.0.0.1", "10.1.2.3"]
+LOCALS = ["127.0.0.1", "::1", "192.168.1.5", "::ffff:127.0.0.1", "10.1.2.3", "192.0.2.1", "2001:db8::1"]
 ADDRS = [None, "10.0.0.1", "example.com", "other.example", "2001:db8::2", "EXAMPLE.COM", "192.0.2.1", "bücher.example", "a" * 64]
 UPS = [
     None,
@@ -205,7 +205,13 @@ UPS = [
     {"sans": [["ip", "192.0.2.1"], ["dns", "EXAMPLE.com"], ["dns", "example.com"]]},
     {"org": "only org"},
     {"cn": "www.example.com", "sans": [["dns", "www.example.com"], ["dns", "www.example.com"]]},
+    # appliance-style certificates that spell an IP address as dNSName (and a host name in another case)
+    {"sans": [["dns", "localhost"], ["dns", "127.0.0.1"], ["dns", "192.0.2.1"]]},
+    {"cn": "192.0.2.1", "sans": [["dns", "192.0.2.1"]]},
+    {"sans": [["dns", "::1"], ["dns", "2001:db8::1"], ["dns", "2001:DB8::1"]]},
+    {"sans": [["dns", "EXAMPLE.COM"], ["dns", "Www.Example.Com"], ["dns", "10.0.0.1"]]},
 ]
+IP_AS_DNS = [21, 22, 23, 24]        # indices of the shapes above
 
 
 class Check(PropertyCheck):
@@ -229,7 +235,7 @@ class Check(PropertyCheck):
     rule = ("grid of SNI forms (none, 63/64-byte labels, 253-byte names, IDN, A-labels, wildcard-looking, IPv4/IPv6, case, underscore, trailing dot) x local "
             "address x server address x upstream certificate shapes (CN/SAN/O/CRLDP incl. non-hostname CNs, empty and non-DNS SANs) x CA configuration "
             "(own CA, custom SKI, no SKI, intermediate+root); then random combinations. distinct = distinct case; non-trivial = a certificate was produced.")
-    budget = {"quick": 700, "thorough": 12000}
+    budget = {"quick": 900, "thorough": 12000}
     time_budget = {"quick": 35, "thorough": 500}
     fingerprints = ["mitmproxy.addons.tlsconfig:TlsConfig.get_cert", "mitmproxy.addons.tlsconfig:_ip_or_dns_name",
                     "mitmproxy.certs:dummy_cert", "mitmproxy.certs:CertStore.get_cert"]
@@ -284,6 +290,13 @@ class Check(PropertyCheck):
             yield case("default", "example.com", "::1", addr, None)
             yield case("default", None, "::1", addr, UPS[9])
         yield case("default", "example.com", "127.0.0.1", "10.0.0.1", UPS[1], opt=False)
+        # the requested identity is an IP (SNI literal, or no SNI -> local address) that the upstream certificate spells as dNSName:
+        # the leaf must still carry it as iPAddress, or a strict verifier rejects it for that address
+        for i in IP_AS_DNS:
+            for sni, local in (("192.0.2.1", "127.0.0.1"), (None, "127.0.0.1"), (None, "192.0.2.1"), ("2001:db8::1", "127.0.0.1"), (None, "::1"),
+                               (None, "2001:db8::1"), ("::1", "10.1.2.3"), ("example.com", "127.0.0.1"), ("www.example.com", "::1")):
+                for addr in (None, "10.0.0.1", "192.0.2.1"):
+                    yield case("default", sni, local, addr, UPS[i])
         while True:
             yield case(rng.pick(CAS) if rng.chance(0.3) else "default", rng.pick(SNIS), rng.pick(LOCALS), rng.pick(ADDRS),
                        rng.pick(UPS) if rng.chance(0.7) else None, opt=rng.chance(0.9))
